@@ -225,3 +225,27 @@ func HarnessC03Tagged() {
 	}
 	verifCheckf(any >= 1, "placeholder-silently-skipped", site.path+" "+tag)
 }
+
+// HarnessC03ActionInputs: every `with:` input of an action step, for an
+// ordinary action, for actions/github-script (whose `script` input is treated
+// specially) and for a Docker action (whose `args` / `entrypoint` are).
+func HarnessC03ActionInputs() {
+	s := yScalar
+	uses := []string{"actions/checkout@v4", "actions/github-script@v7", "docker://alpine:3", "owner/unknown-action@v1"}[verifChoose("uses", 4)]
+	keys := []string{"script", "result-encoding", "ref", "args", "entrypoint", "anything"}
+	k := verifChoose("input", len(keys))
+	bad := s(verifBadExpr)
+	with := []*yaml.Node{}
+	for j, key := range keys {
+		if j == k {
+			with = append(with, s(key), bad)
+		} else {
+			with = append(with, s(key), s("v"))
+		}
+	}
+	doc := yDoc(yMap(s("on"), s("push"), s("jobs"), yMap(s("j"), yMap(s("runs-on"), s("ubuntu-latest"), s("steps"), ySeq(yMap(s("uses"), s(uses), s("with"), yMap(with...)))))))
+	verifPlace(doc, 1, 0)
+	errs := verifLintNode(doc, verifRules())
+	verifReach("site")
+	verifCheckPlaceholder(errs, bad, false)
+}
